@@ -74,9 +74,9 @@ void vf_h_run_until(void)
         g_buf = malloc(g_len);
         g_H = malloc(((size_t) g_len + 2) * sizeof(uint64_t));
         __CPROVER_assume(g_buf != 0 && g_H != 0);
-        uint32_t idx, base; int max_idx; uint64_t h, mask, trigger;
-        __CPROVER_assume(base <= g_len);
-        _rolling_hash2_run_until_base(&idx, max_idx, st->table1, st->table2, g_buf + base, g_buf + base - g_w, h, mask, trigger);
+        uint32_t idx; int max_idx; uint64_t h, mask, trigger;
+        __CPROVER_assume(g_base <= g_len);
+        _rolling_hash2_run_until_base(&idx, max_idx, st->table1, st->table2, g_buf + g_base, g_buf + g_base - g_w, h, mask, trigger);
         VF_CANARY();
 }
 """
@@ -100,6 +100,8 @@ def annotate(workdir, repo=REPO):
         overlay.nth_loop_rule("_rolling_hash2_reset", r"for \(i = 0; i < w; i\+\+\) \{(?P<at>)", "VF_G_RESET(i);", name="ghost:reset"),
         # the piecewise scan loop of _rolling_hash2_run (fix 1bd20b9)
         overlay.nth_loop_rule("_rolling_hash2_run", r"for \(;;\)(?P<at>) \{", "VF_L_RUN", name="loop:run"),
+        overlay.Rule("ghost:base", r"(?P<at>)[ \t]*hash = _rolling_hash2_run_until\(&i, n, ", "                g_base = base; /* ghost */\n"),
+        overlay.nth_loop_rule("_rolling_hash2_run", r"for \(i = 0; i < w; i\+\+\)(?P<at>) \{", "VF_L_RUN0", name="loop:run0"),
     ]
     out, fired = overlay.apply(text, rules)
     out += HARNESS
@@ -115,6 +117,10 @@ def jobs(workdir, repo=REPO):
     inc = [os.path.join(repo, "include"), os.path.join(repo, "rolling_hash"), os.path.join(VERIF, "contracts"), os.path.join(VERIF, "spec")]
     meta = {"file": rel, "sha256": sha, "aspect": "rolling", "fired": fired}
     small = dict(includes=inc, defines=["SAFE_PARAM"], unwind=52, checks=["--bounds-check", "--pointer-check"])  # `buffer - w` is formed on purpose
+    # the ghost hash stream is a symbolic-size array indexed by 64-bit expressions: the SMT back ends decide each contract-level
+    # obligation in seconds (array theory), SAT needs minutes to never; one solver run per obligation (split), the mass of
+    # pointer / frame obligations goes to SAT
+    smt = dict(split=True, solvers=["minisat:40", "z3:60", "cvc5:90", "cadical:900", "minisat"], rest_solvers=["minisat", "cadical"])
     lem = os.path.join(VERIF, "harness", "rolling_lemmas.c")
     lmeta = {"file": "(lemma, code independent) harness/rolling_lemmas.c", "sha256": overlay.sha256_text(open(lem).read()), "aspect": "rolling-lemma"}
     js = [
@@ -123,13 +129,13 @@ def jobs(workdir, repo=REPO):
         Job("rolling/init", [path], entry="vf_h_init", enforce="_rolling_hash2_init", timeout=900, includes=inc, defines=["SAFE_PARAM"],
             unwind=260, checks=["--bounds-check", "--pointer-check"], expect_classes=["postcondition"], meta=dict(meta, cost=30)),
         Job("rolling/run_until_base", [path], entry="vf_h_run_until", enforce="_rolling_hash2_run_until_base", loop_contracts=True,
-            timeout=1500, solvers=["minisat", "cadical"], expect_classes=["loop_invariant_step", "postcondition"], meta=dict(meta, cost=100),
-            mem_gb=16, **small),
-        Job("rolling/reset", [path], entry="vf_h_reset", enforce="_rolling_hash2_reset", replace=["memcpy"], timeout=1500,
-            solvers=["minisat", "cadical"], mem_gb=16, expect_classes=["postcondition"], meta=dict(meta, cost=100), **small),
+            timeout=600, expect_classes=["loop_invariant_step", "postcondition"], meta=dict(meta, cost=100), mem_gb=16, **smt, **small),
+        Job("rolling/reset", [path], entry="vf_h_reset", enforce="_rolling_hash2_reset", replace=["memcpy"], timeout=900,
+            mem_gb=16, expect_classes=["postcondition"], meta=dict(meta, cost=100),
+            **dict(smt, solvers=["minisat:30", "cadical:700", "z3:60", "cvc5:90", "minisat"]), **small),
         Job("rolling/run", [path], entry="vf_h_run", enforce="_rolling_hash2_run", replace=["_rolling_hash2_run_until", "memcpy", "memmove"],
-            loop_contracts=True, timeout=1500, solvers=["minisat", "cadical"], mem_gb=16, object_bits=12,
-            expect_classes=["postcondition", "precondition", "loop_invariant_step"], meta=dict(meta, cost=300), **small),
+            loop_contracts=True, timeout=900, mem_gb=16, object_bits=12,
+            expect_classes=["postcondition", "precondition", "loop_invariant_step"], meta=dict(meta, cost=300), **smt, **small),
         Job("rolling/lemma_reset", [lem], entry="lemma_reset", unwind=50, timeout=900, solvers=["minisat", "cadical", "z3"], checks=[],
             expect_classes=["assertion"], meta=dict(lmeta, cost=20)),
         Job("rolling/lemma_step", [lem], entry="lemma_step", unwind=50, timeout=900, solvers=["minisat", "cadical", "z3"], checks=[],
